@@ -221,7 +221,8 @@ impl<T: CountMinValue> CountMinSketch<T> {
     pub fn upper_bound<I: Hash>(&self, item: I) -> T {
         let estimate = self.estimate(item);
         let error = T::from_f64(self.relative_error() * self.total_weight.to_f64());
-        estimate.add(error)
+        // the bound is capped by the counter type instead of overflowing it
+        estimate.saturating_add(error)
     }
 
     /// Merges another sketch into this one.
